@@ -20,7 +20,7 @@ import xeofs as xe
 
 PROP = "C17"
 TAGS = {"C17"}
-INV = ["C02_OutputDims", "C02_Shape", "C17_FaultsRefused", "Emit"]
+INV = ["C02_OutputDims", "C02_Shape", "C17_FaultsRefused", "C17_SameDataIsNoListedFault", "Emit"]
 
 
 def cfg_lay(tier):
@@ -93,7 +93,33 @@ def mutate(data, lay, fault):
         return (data + [data[0]]) if isinstance(data, list) else [data, data]
     if fault == "datasetForArray":
         return data.to_dataset(name="v")
+    if fault == "reorderedVars":
+        return data[list(data.data_vars)[::-1]]
+    if fault == "transposedArg":
+        if isinstance(data, list):
+            return [data[0].transpose(*list(data[0].dims)[::-1])] + list(data[1:])
+        return data.transpose(*list(data.dims)[::-1])
     raise ValueError(fault)
+
+
+def _differs(res, ref):
+    """None when the answer equals the reference answer at every label, else a description"""
+    a = res[0] if isinstance(res, (list, tuple)) else res
+    b = ref[0] if isinstance(ref, (list, tuple)) else ref
+    if set(a.dims) != set(b.dims):
+        return f"dimensions {a.dims} instead of {b.dims}"
+    try:
+        a = a.transpose(*b.dims).reindex_like(b)
+    except Exception as e:  # noqa
+        return f"labels cannot be matched ({type(e).__name__})"
+    av, bv = np.asarray(a.values), np.asarray(b.values)
+    if av.shape != bv.shape:
+        return f"shape {av.shape} instead of {bv.shape}"
+    if np.isnan(av).any() != np.isnan(bv).any():
+        return "other labels (NaN after matching by label)"
+    d = float(np.nanmax(np.abs(av - bv))) if av.size else 0.0
+    scale = max(float(np.nanmax(np.abs(bv))), 1e-300)
+    return None if d <= 1e-8 * scale else f"max |difference| {d:.3g} (scale {scale:.3g})"
 
 
 def eval_layout(i, scn):
@@ -125,7 +151,14 @@ def eval_layout(i, scn):
     want = pred["verdict"]
     ck.d(want == "either" or outcome == want, "C17", "C17_FaultsRefused",
          f"transform with fault '{lay['fault']}' on a {lay['kind']} ({'MCA' if cross else 'EOF'}) was {outcome}; the statement demands {want}")
-    return dict(found=ck.found, D=ck.D, count={lay["fault"]: 1, outcome: 1})
+    cnt = {lay["fault"]: 1, outcome: 1}
+    if pred.get("sameData") and outcome == "answered" and lay["fault"] != "none":
+        # the same data presented differently: an answer must be the documented projection
+        why = _differs(res, call(data))
+        ck.m(why is None, "C17", "C17_AnsweredMeansComputed",
+             f"transform of the same data presented as '{lay['fault']}' on a {lay['kind']} ({'MCA' if cross else 'EOF'}) returned numbers that are not the projection of that data: {why}")
+        cnt["same_data_answers_compared"] = 1
+    return dict(found=ck.found, D=ck.D, M=ck.M, count=cnt)
 
 
 def _mk(fam, **kw):
